@@ -918,6 +918,23 @@ func (x *Exec) run(s *State, kind string, op Op, caseID int, step int) bool {
 		spec := x.buildTx(s, kind, first, from, nonce)
 		plan = append(plan, planned{tx: x.priceTx(n, spec, x.gasFor("small", need)), kind: kind, role: "first"})
 		nonce++
+	case "samerin":
+		// the attempt runs out of gas at its very end (the coins have been moved inside the execution context by then), a
+		// plain transfer then credits the operation's recipient, then the operation itself follows
+		first := op
+		first.Gas = "small"
+		spec := x.buildTx(s, kind, first, from, nonce)
+		g := uint64(0)
+		if need > 1 {
+			g = need - 1
+		}
+		plan = append(plan, planned{tx: x.priceTx(n, spec, g), kind: kind, role: "first"})
+		nonce++
+		to := x.W.Addrs[kR1]
+		credit := x.W.Tx(sim.TxSpec{From: kFunder, To: &to, Type: types.SendTx, Amount: sim.Dna(2000, 1), MaxFee: sim.Dna(10, 1),
+			Nonce: n.App.State.GetNonce(x.W.Addrs[kFunder]) + 1})
+		plan = append(plan, planned{tx: credit, plain: true, role: "mid"})
+		x.Stats["recipient_credited_between"]++
 	case "term":
 		first := Op{M: "terminate", Arg: "valid", Amt: "zero", Gas: "small", Who: op.Who}
 		pt := x.buildTx(s, kind, first, from, nonce)
@@ -1011,7 +1028,7 @@ func (x *Exec) run(s *State, kind string, op Op, caseID int, step int) bool {
 	preHeight := n.Chain.Head.Height()
 	fpg := new(big.Int).Set(n.App.State.FeePerGas())
 	var blk *types.Block
-	if tail != "" {
+	if tail != "" || op.Pair == "samerin" {
 		// the proposer chooses the order of the body: the repository's own block assembly for a given body
 		if pre == nil {
 			pre = x.snapshot(s)
